@@ -40,9 +40,17 @@ type child struct {
 	errBuf *tailBuf
 }
 
+// workerTmp, when set, is where the workers make their private directories:
+// inside the run's scratch directory, which the check removes - a worker that
+// is killed (crash, timeout) cannot remove its own.
+var workerTmp string
+
 func startChild(extraEnv ...string) (*child, error) {
 	cmd := exec.Command(os.Args[0])
 	cmd.Env = append(append(os.Environ(), workerEnv+"=1"), extraEnv...)
+	if workerTmp != "" {
+		cmd.Env = append(cmd.Env, "TMPDIR="+workerTmp)
+	}
 	stdin, err := cmd.StdinPipe()
 	if err != nil {
 		return nil, err
